@@ -76,8 +76,108 @@ func c15Corpus() map[string]string {
 	for i, g := range gen {
 		out[fmt.Sprintf("generated#%d", i)] = g
 	}
+	// grammar-generated programs of deeper nesting (deterministic; more of them in the thorough tier)
+	nGen := 150
+	if os.Getenv("VERIF_TIER") == "thorough" {
+		nGen = 4000
+	}
+	gg := &c15Gen{state: 0x2545F4914F6CDD1D}
+	for i := 0; i < nGen; i++ {
+		var sb strings.Builder
+		for k, ns := 0, 1+gg.n(3); k < ns; k++ {
+			sb.WriteString(gg.stmt(3))
+			sb.WriteString("\n")
+		}
+		out[fmt.Sprintf("grammar#%04d", i)] = sb.String()
+	}
 	return out
 }
+
+// c15Gen: a small deterministic generator of programs from the expression / statement grammar.
+type c15Gen struct{ state uint64 }
+
+func (g *c15Gen) n(k int) int {
+	g.state ^= g.state << 13
+	g.state ^= g.state >> 7
+	g.state ^= g.state << 17
+	return int(g.state % uint64(k))
+}
+
+func (g *c15Gen) pick(xs ...string) string { return xs[g.n(len(xs))] }
+
+func (g *c15Gen) expr(d int) string {
+	if d <= 0 {
+		return g.pick("a", "b", "c", "1", "2.5", "\"s\"", "true", "nil", "x", "f(1)", "a[0]", "m.k")
+	}
+	switch g.n(14) {
+	case 0, 1, 2, 3:
+		op := g.pick("+", "-", "*", "/", "%", "==", "!=", "<", ">=", "&&", "||", "|", "&", "^", "<<", ">>")
+		if op == "+" {
+			// a parenthesised + on the right of a + is the recorded plus-chain finding: keep the right operand atomic
+			return g.operand(d-1) + " + " + g.expr(0)
+		}
+		return g.operand(d-1) + " " + op + " " + g.operand(d-1)
+	case 4:
+		return g.pick("-", "!", "~") + g.operand(d-1)
+	case 5:
+		return "f(" + g.expr(d-1) + ", " + g.expr(d-1) + ")"
+	case 6:
+		return g.operand(d-1) + "[" + g.expr(d-1) + "]"
+	case 7:
+		return "[" + g.expr(d-1) + ", " + g.expr(d-1) + "]"
+	case 8:
+		return "{" + g.expr(0) + ": " + g.expr(d-1) + "}"
+	case 9:
+		return "if " + g.expr(d-1) + " { " + g.expr(d-1) + " } else { " + g.expr(d-1) + " }"
+	case 10:
+		return g.pick("x => ", "(x, y) => ", "() => ") + g.expr(d-1)
+	case 11:
+		return "func(p) { " + g.expr(d-1) + " }"
+	case 12:
+		return g.operand(d-1) + "[" + g.expr(0) + ":" + g.pick("", g.expr(0)) + "]"
+	default:
+		return g.expr(d - 1)
+	}
+}
+
+// operand: an expression, parenthesised when it is not atomic (so that the intended structure is unambiguous)
+func (g *c15Gen) operand(d int) string {
+	e := g.expr(d)
+	if strings.ContainsAny(e, " ") {
+		return "(" + e + ")"
+	}
+	return e
+}
+
+// bareExpr: an expression used as a statement; one that starts with a prefix operator is left out (the recorded
+// prefix-operator-statement finding).
+func (g *c15Gen) bareExpr(d int) string {
+	for {
+		if e := g.expr(d); !strings.ContainsAny(e[:1], "-!~+") && !strings.HasPrefix(e, "(-") && !strings.HasPrefix(e, "(!") && !strings.HasPrefix(e, "(~") {
+			return e
+		}
+	}
+}
+
+func (g *c15Gen) stmt(d int) string {
+	switch g.n(9) {
+	case 0, 1, 2:
+		return g.pick("x", "y", "z") + " = " + g.expr(d)
+	case 3:
+		return g.bareExpr(d)
+	case 4:
+		return "if " + g.expr(d-1) + " {\n" + g.stmt(d-1) + "\n}"
+	case 5:
+		return "for i = 0:3 {\n" + g.stmt(d-1) + "\n}"
+	case 6:
+		return "func g" + g.pick("1", "2") + "(p, q) {\n" + g.stmt(d-1) + "\n" + g.bareExpr(d-1) + "\n}"
+	case 7:
+		return g.pick("x++", "y--", "println(" + g.expr(d-1) + ")")
+	default:
+		return g.pick("// note", "/* note */ ") + g.pick("", "x = "+g.expr(0))
+	}
+}
+
 
 var c15BinaryOps = map[token.Type]bool{
 	token.PLUS: true, token.MINUS: true, token.ASTERISK: true, token.SLASH: true, token.PERCENT: true, token.LT: true, token.GT: true,
@@ -213,7 +313,7 @@ func TestVerifBoundedLineMode(t *testing.T) {
 		fmt.Printf("BOUNDED-KNOWN %s %s\n", id, m)
 	}
 	fmt.Printf("BOUNDED evaluations=%d distinct=%d exhaustive=false bound=%q\n", evals, evals,
-		fmt.Sprintf("%d programs (examples/*.gr, tests/*.gr, 13 generated): both modes on the whole text; every token-boundary prefix inside an unclosed bracket or after a binary operator; statement-by-statement sessions for tests/*.gr and the generated programs", len(corpus)))
+		fmt.Sprintf("%d programs (examples/*.gr, tests/*.gr, 13 hand-written and 150 (quick) / 4000 (thorough) grammar-generated): both modes on the whole text; every token-boundary prefix inside an unclosed bracket or after a binary operator; statement-by-statement sessions for tests/*.gr and the generated programs", len(corpus)))
 	if fails > 0 {
 		t.Fatalf("%d failures", fails)
 	}
